@@ -507,7 +507,7 @@ inline Op opBulkFrames(int n) {   // n conforming frames appended one after the 
 // a whole recording in one op: P points and C channels declared by name, rates 100 / 200 Hz, F conforming frames appended (value sets in turn), frame 1 replaced
 inline Op opBigObject(int P, int C, int F) {
     Op o; o.name = "big(" + std::to_string(P) + "pts," + std::to_string(C) + "ch," + std::to_string(F) + "fr)"; o.cls = "bulk";
-    o.enabled = [](const World&, const WSnap& s) { return nothingDeclared(s.o) && !s.loadedRoot && s.o.groups.size() <= 2; };
+    o.enabled = [](const World&, const WSnap& s) { return nothingDeclared(s.o) && !s.loadedRoot && s.o.groups.size() <= 3; };
     o.apply = [P, C, F](World& w, const WSnap&, CallInfo& ci) {
         ci.kind = K_BULK; Shape sh;
         for (int i = 0; i < P; ++i) { sh.pts.push_back("P" + std::to_string(i)); w.c->point(sh.pts.back()); }
